@@ -1660,11 +1660,12 @@ def _sweeps(run, thorough):
                  'identical call again gives the identical result%s; %d seeded random histories of length <= 8 on such bases, with '
                  'the call-sequence clauses' % (
                      'ALL' if thorough else 'all of length 1 and every third of length 2 of the', len(bases),
-                     '; length 3 on the bases with at most 8 cells' if thorough else '', 400 if thorough else 40),
+                     '; length 3 on three of the bases with at most 8 cells (units + twice, tuple + keep + twice, vectors on all '
+                     'axes)' if thorough else '', 400 if thorough else 40),
                  exhaustive=False, function='Dataset operations', budget_s=600 if thorough else 20)
+    deep = (5, 7, 10)       # indices of the bases enumerated to length 3 in thorough mode
     for base in bases:
-        cells = base['n'][0] * base['n'][1] * base['n'][2]
-        depth = 3 if (thorough and cells <= 8) else 2
+        depth = 3 if (thorough and bases.index(base) in deep) else 2
         kind = base['kind'] + ',sweep'
         for ne, (ops, tag) in enumerate(_enumerate(base, depth, rich=True, extra=True)):
             if bd.out_of_budget():
